@@ -194,13 +194,23 @@ func (st Struct) Generate(w io.Writer, settings GenerateSettings) {
 func writeStructFieldUnmarshaller(name string, typ FieldType, w *iohelp.ErrorWriter, settings GenerateSettings, depth int) {
 	iName := "i" + strconv.Itoa(depth)
 	if typ.Array != nil {
-		writeLineWithTabs(w, "%RECV = make([]%TYPE, iohelp.ReadUint32(r))", depth, name, typ.Array.goString(settings))
 		if typ.Array.Simple == typeByte {
-			writeLineWithTabs(w, "r.Read(%RECV)", depth, name)
+			writeLineWithTabs(w, "%RECV = iohelp.ReadBytes(r)", depth, name)
 		} else {
-			writeLineWithTabs(w, "for "+iName+" := range %RECV {", depth, name)
+			// the count comes from the stream: grow as elements really arrive
+			// instead of trusting it with one big allocation
+			nName := "n" + strconv.Itoa(depth)
+			writeLineWithTabs(w, "{", depth)
+			writeLineWithTabs(w, "\t"+nName+" := iohelp.ReadUint32(r)", depth)
+			writeLineWithTabs(w, "\t%RECV = make([]%TYPE, 0, iohelp.ArrayCap("+nName+"))", depth, name, typ.Array.goString(settings))
+			writeLineWithTabs(w, "\tfor "+iName+" := uint32(0); "+iName+" < "+nName+"; "+iName+"++ {", depth)
+			writeLineWithTabs(w, "\t\tif r.Err != nil {", depth)
+			writeLineWithTabs(w, "\t\t\treturn r.Err", depth)
+			writeLineWithTabs(w, "\t\t}", depth)
+			writeLineWithTabs(w, "\t\t%RECV = append(%RECV, *new(%TYPE))", depth, name, typ.Array.goString(settings))
 			name = "&(" + name[1:] + "[" + iName + "])"
-			writeStructFieldUnmarshaller(name, *typ.Array, w, settings, depth+1)
+			writeStructFieldUnmarshaller(name, *typ.Array, w, settings, depth+2)
+			writeLineWithTabs(w, "\t}", depth)
 			writeLineWithTabs(w, "}", depth)
 		}
 	} else if typ.Map != nil {
@@ -213,8 +223,11 @@ func writeStructFieldUnmarshaller(name string, typ FieldType, w *iohelp.ErrorWri
 		} else {
 			writeLineWithTabs(w, lnName+" := iohelp.ReadUint32(r)", depth)
 		}
-		writeLineWithTabs(w, "%RECV = make(%TYPE, "+lnName+")", depth, name, typ.Map.goString(settings))
+		writeLineWithTabs(w, "%RECV = make(%TYPE, iohelp.ArrayCap("+lnName+"))", depth, name, typ.Map.goString(settings))
 		writeLineWithTabs(w, "for "+iName+" := uint32(0); "+iName+" < "+lnName+"; "+iName+"++ {", depth, name)
+		writeLineWithTabs(w, "\tif r.Err != nil {", depth)
+		writeLineWithTabs(w, "\t\treturn r.Err", depth)
+		writeLineWithTabs(w, "\t}", depth)
 		ln := getLineWithTabs(settings.typeUnmarshallers[typ.Map.Key], depth+1, "&"+depthName("k", depth))
 		w.SafeWrite([]byte(strings.Replace(ln, "=", ":=", 1)))
 		name = "&(" + name[1:] + "[" + depthName("k", depth) + "])"
